@@ -247,7 +247,33 @@ def _reshape_flat(I, a, dims, neg):
         known = z3.IntVal(1) if known is None else known
         kc = z3.simplify(known)
         if not z3.is_int_value(kc):
-            raise Unsupported("reshape: cannot infer -1 against a symbolic size")
+            # symbolic known part: the -1 axis is what remains of the source factors after cancelling the known ones
+            # structurally (x.reshape(len(x), -1, 3) on shape [B, 3, N, 1] -> N)
+            a_f = [f for d in a.shape for f in d.factors]
+            k_f = [f for k, d in enumerate(dims) if k != neg for f in d.factors]
+            ca = 1
+            for f in a_f:
+                if isinstance(f, int):
+                    ca *= f
+            ck = 1
+            for f in k_f:
+                if isinstance(f, int):
+                    ck *= f
+            rem = [f for f in a_f if not isinstance(f, int)]
+            for f in k_f:
+                if isinstance(f, int):
+                    continue
+                hit = [i for i, g in enumerate(rem) if zint(g).eq(zint(f))]
+                if not hit:
+                    raise Unsupported("reshape: cannot infer -1 against a symbolic size")
+                rem.pop(hit[0])
+            if ck == 0 or ca % ck != 0:
+                raise IN.RaisedEx("RuntimeError", "shape is invalid for input size", I.ctx.loc)
+            dims = list(dims)
+            dims[neg] = Dim(rem + [ca // ck])
+            neg = None
+            kc = None
+    if neg is not None:
         k_ = kc.as_long()
         if k_ == 0:
             raise IN.RaisedEx("RuntimeError", "cannot reshape: unspecified dimension with zero size")
@@ -483,6 +509,8 @@ def expand(I, a, sizes):
 
 def flip(I, a, dims):
     a = lift(a)
+    if isinstance(dims, int):
+        dims = [dims]
     dims = [norm_axis(I, k, a.rank) for k in dims]
 
     def fn(idx):
